@@ -2,6 +2,803 @@
 From CAres.Dsa Require Import Array Array_proofs.
 From CAres.Gen Require Import Consts.
 
+(* ===================== array (src/lib/dsa/ares_array.c) ===================== *)
+
+(* The C19 array theorem: for EVERY sequence of API calls on a fresh array, with an allocator
+   that never refuses, the model returns call by call what the plain list returns (statuses,
+   removed members, reads, lengths), ends with the list as its members, and never runs into C
+   undefined behaviour.  "Keeps sequence order for inserts and removals at any index and stays
+   usable after any removal pattern". *)
+Theorem C19_array_run_refines : forall ops : list arr_op,
+  let '(a', rs) := arr_run arr_create (map (fun o => (true, o)) ops) in
+  let '(l', rs') := aspec_run [] ops in
+  rs = rs' /\ arr_abs a' = l' /\ ~ In RUB rs.
+Proof. exact arr_run_refines. Qed.
+Print Assumptions C19_array_run_refines.
+
+(* With an allocator that may refuse (one answer per call): the only deviation from the list is
+   an in-range insert that reports ARES_ENOMEM and changes nothing, and only when the allocator
+   refused.  (Container-level half of C14 for the array.) *)
+Theorem C19_array_run_alloc_refines : forall ops : list (bool * arr_op),
+  let '(a', rs) := arr_run arr_create ops in
+  aspec_trace [] ops rs (arr_abs a') /\ ~ In RUB rs.
+Proof. exact arr_run_alloc_refines. Qed.
+Print Assumptions C19_array_run_alloc_refines.
+
+(* Per operation, on any state satisfying the invariant (established by create, preserved). *)
+Theorem C19_array_insert : forall ok a idx v,
+  arr_inv_full a -> idx <= a_cnt a ->
+  (exists a', arr_insertdata_at ok a idx v = Ok a' /\ arr_inv_full a'
+              /\ a_cnt a' = S (a_cnt a)
+              /\ arr_abs a' = firstn idx (arr_abs a) ++ v :: skipn idx (arr_abs a))
+  \/ (ok = false /\ arr_insertdata_at ok a idx v = Err ARES_ENOMEM).
+Proof. exact arr_insert_refines. Qed.
+Print Assumptions C19_array_insert.
+
+Theorem C19_array_insert_bad_index : forall ok a idx v,
+  a_cnt a < idx -> arr_insertdata_at ok a idx v = Err ARES_EFORMERR.
+Proof. exact arr_insert_bad_index. Qed.
+Print Assumptions C19_array_insert_bad_index.
+
+Theorem C19_array_remove : forall a idx,
+  arr_inv_full a -> idx < a_cnt a ->
+  exists a' v, arr_remove_at a idx = Ok (a', v) /\ arr_inv_full a'
+               /\ S (a_cnt a') = a_cnt a
+               /\ nth_error (arr_abs a) idx = Some v
+               /\ arr_abs a' = firstn idx (arr_abs a) ++ skipn (S idx) (arr_abs a).
+Proof. exact arr_remove_refines. Qed.
+Print Assumptions C19_array_remove.
+
+Theorem C19_array_remove_bad_index : forall a idx,
+  a_cnt a <= idx -> arr_remove_at a idx = Err ARES_EFORMERR.
+Proof. exact arr_remove_bad_index. Qed.
+Print Assumptions C19_array_remove_bad_index.
+
 Theorem C19_array_at_refines : forall a idx, arr_at a idx = nth_error (arr_abs a) idx.
 Proof. exact arr_at_refines. Qed.
 Print Assumptions C19_array_at_refines.
+
+(* ares_array_finish after any sequence of calls hands out exactly the list, in order. *)
+Theorem C19_array_run_finish : forall ops : list arr_op,
+  arr_finish (fst (arr_run arr_create (map (fun o => (true, o)) ops))) = Ok (fst (aspec_run [] ops)).
+Proof. exact arr_run_finish. Qed.
+Print Assumptions C19_array_run_finish.
+
+(* ---- doubly linked list (src/lib/dsa/ares_llist.c): Dsa/LList.v, Dsa/LList_proofs.v ---- *)
+From CAres.Dsa Require Import LList LList_proofs.
+
+(* the invariant [ll_inv h s] (heap h represents the finite set of lists s) holds initially *)
+Theorem C19_llist_inv_create : ll_inv ll_heap_empty ll_spec_empty.
+Proof. exact ll_inv_empty. Qed.
+Print Assumptions C19_llist_inv_create.
+
+(* one API call whose node / list arguments are alive (NULL allowed): never UB, never out of
+   fuel, returns what the list specification returns, re-establishes the invariant *)
+Theorem C19_llist_exec_refines : forall h s o, ll_inv h s ->
+  forallb (ll_sp_node_live s) (ll_op_nodes o) && forallb (ll_sp_list_live s) (ll_op_lists o) = true ->
+  exists h', ll_exec h o = Ok (h', snd (ll_spec_exec s o)) /\ ll_inv h' (fst (ll_spec_exec s o)).
+Proof. exact ll_exec_refines. Qed.
+Print Assumptions C19_llist_exec_refines.
+
+(* one step of a caller that never passes dangling pointers (such calls are skipped, and model
+   and specification agree on which pointers dangle) *)
+Theorem C19_llist_step_refines : forall h s o, ll_inv h s ->
+  exists h', ll_model_step h o = Ok (h', snd (ll_spec_step s o)) /\ ll_inv h' (fst (ll_spec_step s o)).
+Proof. exact ll_step_refines. Qed.
+Print Assumptions C19_llist_step_refines.
+
+(* MAIN: for every operation sequence over any number of lists, starting from nothing, the
+   code-shaped model yields exactly the results and observations of the list specification:
+   after every operation, every result and, for every live list, the forward traversal
+   (node, value, parent), the backward traversal and len *)
+Theorem C19_llist_run_refines : forall ops,
+  ll_run_model ll_heap_empty ops = Ok (ll_run_spec ll_spec_empty ops).
+Proof. exact ll_run_refines_from_create. Qed.
+Print Assumptions C19_llist_run_refines.
+
+(* the same from any state satisfying the invariant *)
+Theorem C19_llist_run_refines_inv : forall ops h s, ll_inv h s ->
+  ll_run_model h ops = Ok (ll_run_spec s ops).
+Proof. exact ll_run_refines. Qed.
+Print Assumptions C19_llist_run_refines_inv.
+
+(* the invariant holds after every operation sequence *)
+Theorem C19_llist_inv_reachable : forall ops h s, ll_inv h s ->
+  exists h', ll_model_after h ops = Ok h' /\ ll_inv h' (ll_spec_after s ops).
+Proof. exact ll_inv_reachable. Qed.
+Print Assumptions C19_llist_inv_reachable.
+
+(* C19_llist_order: forward traversal (head, next, ...) = the specification list, every node's
+   parent is the list; backward traversal (tail, prev, ...) = its reverse; len = its length;
+   the traversal fuel (number of nodes ever created) is never exhausted *)
+Theorem C19_llist_order : forall h s l sl, ll_inv h s -> nth_error (sp_lists s) l = Some (Some sl) ->
+  ll_observe_list h l =
+  Ok (mkLV (map (fun x => (fst x, snd x, Some l)) (sl_items sl)) (rev (sl_items sl)) (length (sl_items sl))).
+Proof. exact ll_order. Qed.
+Print Assumptions C19_llist_order.
+
+Theorem C19_llist_fwd_rev_bwd : forall h s l sl v, ll_inv h s -> nth_error (sp_lists s) l = Some (Some sl) ->
+  ll_observe_list h l = Ok v ->
+  map (fun x => (fst (fst x), snd (fst x))) (lv_fwd v) = rev (lv_bwd v) /\
+  lv_len v = length (lv_fwd v) /\ lv_len v = length (lv_bwd v) /\
+  forall x, In x (lv_fwd v) -> snd x = Some l.
+Proof. exact ll_fwd_rev_bwd. Qed.
+Print Assumptions C19_llist_fwd_rev_bwd.
+
+(* all live lists at once *)
+Theorem C19_llist_observe : forall h s, ll_inv h s -> ll_observe h = Ok (ll_spec_observe s).
+Proof. exact ll_observe_ok. Qed.
+Print Assumptions C19_llist_observe.
+
+(* every allocated node is in exactly one list at exactly one position, its parent pointer
+   names that list and its value is the specification's; members are allocated *)
+Theorem C19_llist_one_owner : forall h s n, ll_inv h s -> ll_node_live h n = true ->
+  exists l sl p v,
+    nth_error (sp_lists s) l = Some (Some sl) /\ nth_error (sl_items sl) p = Some (n, v) /\
+    ll_node_parent h (Some n) = Ok (Some l) /\ ll_node_val h (Some n) = Ok v /\
+    forall l' sl' p' v', nth_error (sp_lists s) l' = Some (Some sl') ->
+      nth_error (sl_items sl') p' = Some (n, v') -> l' = l /\ p' = p /\ v' = v.
+Proof. exact ll_one_owner. Qed.
+Print Assumptions C19_llist_one_owner.
+
+Theorem C19_llist_members_live : forall h s l sl p n v, ll_inv h s ->
+  nth_error (sp_lists s) l = Some (Some sl) -> nth_error (sl_items sl) p = Some (n, v) ->
+  ll_node_live h n = true.
+Proof. exact ll_members_live. Qed.
+Print Assumptions C19_llist_members_live.
+
+(* C14 (atomicity): with a failing allocator create / insert_* return NULL and neither the
+   heap nor the specification state changes *)
+Theorem C19_llist_alloc_fail_atomic : forall h s o, ll_inv h s -> ll_is_failing_alloc o = true ->
+  exists r, ll_model_step h o = Ok (h, r) /\ ll_spec_step s o = (s, r) /\
+            (r = RSkip \/ r = RNode None \/ r = RList None).
+Proof. exact ll_step_alloc_fail_atomic. Qed.
+Print Assumptions C19_llist_alloc_fail_atomic.
+
+(* ---- skip list (ares_slist.c): coq/Dsa/SList.v, SList_heap.v, SList_proofs.v ---- *)
+From CAres.Dsa Require Import SList SList_proofs.
+
+(* main statement: for every comparison callback whose sign is a total preorder and every
+   operation sequence (every level choice, every allocator answer), a whole life of the model
+   (create, the operations, destroy) yields exactly the results of the sorted-list specification,
+   in particular it is never UB and never runs out of fuel *)
+Theorem C19_slist_refines :
+  forall (D : Type) (cmp : D -> D -> Z),
+    (forall a b : D, (cmp a b > 0)%Z <-> (cmp b a < 0)%Z) ->
+    (forall a b c : D, (cmp a b <= 0)%Z -> (cmp b c <= 0)%Z -> (cmp a c <= 0)%Z) ->
+    forall ops : list (sl_op D), sl_life_model cmp ops = Ok (sl_life_spec cmp ops).
+Proof. exact @sl_life_refines. Qed.
+Print Assumptions C19_slist_refines.
+
+Theorem C19_slist_never_ub :
+  forall (D : Type) (cmp : D -> D -> Z),
+    (forall a b : D, (cmp a b > 0)%Z <-> (cmp b a < 0)%Z) ->
+    (forall a b c : D, (cmp a b <= 0)%Z -> (cmp b c <= 0)%Z -> (cmp a c <= 0)%Z) ->
+    forall ops : list (sl_op D),
+      is_ub (sl_life_model cmp ops) = false /\ sl_life_model cmp ops <> Err OutOfFuel.
+Proof. exact @sl_life_never_ub. Qed.
+Print Assumptions C19_slist_never_ub.
+
+(* after any operation sequence: first/next... yields the specification list, last/prev... its
+   reverse, len its length; it is sorted by cmp and holds every node at most once *)
+Theorem C19_slist_sorted_stable :
+  forall (D : Type) (cmp : D -> D -> Z),
+    (forall a b : D, (cmp a b > 0)%Z <-> (cmp b a < 0)%Z) ->
+    (forall a b c : D, (cmp a b <= 0)%Z -> (cmp b c <= 0)%Z -> (cmp a c <= 0)%Z) ->
+    forall ops : list (sl_op D),
+    exists (s0 : slist D) (rs : list (sl_res D)) (s : slist D),
+      sl_create true true = Some s0 /\
+      sl_run_model cmp s0 ops = Ok (rs, s) /\
+      (let l := sp_l (snd (sl_run_spec cmp sl_spec_create ops)) in
+       sl_walk_fwd s = Ok l /\ sl_walk_bwd s = Ok (rev l) /\ sl_len s = length l /\
+       sl_sorted cmp (map snd l) /\ NoDup (map fst l)).
+Proof. exact @sl_sorted_stable. Qed.
+Print Assumptions C19_slist_sorted_stable.
+
+(* nothing lost or duplicated: the specification's insert adds exactly the new element, its
+   removal takes out exactly the named node *)
+Theorem C19_slist_insert_adds_one :
+  forall (D : Type) (cmp : D -> D -> Z) (x : nat * D) (l : list (nat * D)),
+    Permutation (sl_spec_ins cmp x l) (x :: l).
+Proof. exact @sl_spec_ins_perm. Qed.
+Print Assumptions C19_slist_insert_adds_one.
+
+Theorem C19_slist_remove_takes_one :
+  forall (D : Type) (l : list (nat * D)) (n : nat) (d : D),
+    NoDup (map fst l) -> In (n, d) l -> Permutation l ((n, d) :: sl_spec_remove n l).
+Proof. exact @sl_spec_remove_perm. Qed.
+Print Assumptions C19_slist_remove_takes_one.
+
+(* the tie rule of the C code: a new element goes after all strictly smaller elements and BEFORE
+   all elements that are equal or larger *)
+Theorem C19_slist_insert_position :
+  forall (D : Type) (cmp : D -> D -> Z),
+    (forall a b c : D, (cmp a b <= 0)%Z -> (cmp b c <= 0)%Z -> (cmp a c <= 0)%Z) ->
+    forall (x : nat * D) (sp : list (nat * D)),
+      sl_sorted cmp (map snd sp) ->
+      exists Pl Sl : list (nat * D),
+        sp = Pl ++ Sl /\ sl_spec_ins cmp x sp = Pl ++ x :: Sl /\
+        (forall e : nat * D, In e Pl -> (cmp (snd x) (snd e) > 0)%Z) /\
+        (forall e : nat * D, In e Sl -> (cmp (snd x) (snd e) <= 0)%Z).
+Proof. exact @sl_spec_ins_split. Qed.
+Print Assumptions C19_slist_insert_position.
+
+(* find returns the first element (in first/next order) that compares equal to the probe, and
+   NULL exactly when there is none *)
+Theorem C19_slist_find_first :
+  forall (D : Type) (cmp : D -> D -> Z),
+    (forall a b : D, (cmp a b > 0)%Z <-> (cmp b a < 0)%Z) ->
+    (forall a b c : D, (cmp a b <= 0)%Z -> (cmp b c <= 0)%Z -> (cmp a c <= 0)%Z) ->
+    forall (ops : list (sl_op D)) (v : D),
+    exists (s0 : slist D) (rs : list (sl_res D)) (s : slist D) (l : list (nat * D)),
+      sl_create true true = Some s0 /\
+      sl_run_model cmp s0 ops = Ok (rs, s) /\
+      sl_walk_fwd s = Ok l /\
+      (exists r : option nat,
+         sl_node_find cmp s v = Ok r /\
+         match r with
+         | Some f =>
+             exists (A : list (nat * D)) (d : D) (B : list (nat * D)),
+               l = A ++ (f, d) :: B /\ cmp v d = 0%Z /\
+               (forall e : nat * D, In e A -> cmp v (snd e) <> 0%Z)
+         | None => forall e : nat * D, In e l -> cmp v (snd e) <> 0%Z
+         end).
+Proof. exact @sl_find_first. Qed.
+Print Assumptions C19_slist_find_first.
+
+(* first = minimum *)
+Theorem C19_slist_first_minimum :
+  forall (D : Type) (cmp : D -> D -> Z),
+    (forall a b : D, (cmp a b > 0)%Z <-> (cmp b a < 0)%Z) ->
+    (forall a b c : D, (cmp a b <= 0)%Z -> (cmp b c <= 0)%Z -> (cmp a c <= 0)%Z) ->
+    forall ops : list (sl_op D),
+    exists (s0 : slist D) (rs : list (sl_res D)) (s : slist D) (l : list (nat * D)),
+      sl_create true true = Some s0 /\
+      sl_run_model cmp s0 ops = Ok (rs, s) /\
+      sl_walk_fwd s = Ok l /\
+      sl_first_val s = Ok (option_map snd (hd_error l)) /\
+      (forall d : D, option_map snd (hd_error l) = Some d ->
+                     forall e : nat * D, In e l -> (cmp d (snd e) <= 0)%Z).
+Proof. exact @sl_first_minimum. Qed.
+Print Assumptions C19_slist_first_minimum.
+
+(* the coin flips are unobservable: two operation sequences that differ only in the level
+   choices give the same results (as long as the head-array reallocation, the one allocation
+   whose occurrence depends on the levels, is not made to fail) *)
+Theorem C19_slist_level_choice_irrelevant :
+  forall (D : Type) (cmp : D -> D -> Z),
+    (forall a b : D, (cmp a b > 0)%Z <-> (cmp b a < 0)%Z) ->
+    (forall a b c : D, (cmp a b <= 0)%Z -> (cmp b c <= 0)%Z -> (cmp a c <= 0)%Z) ->
+    forall ops ops' : list (sl_op D),
+      map sl_op_erase ops = map sl_op_erase ops' ->
+      Forall sl_op_head_ok ops -> Forall sl_op_head_ok ops' ->
+      sl_life_model cmp ops = sl_life_model cmp ops'.
+Proof. exact @sl_level_choice_irrelevant. Qed.
+Print Assumptions C19_slist_level_choice_irrelevant.
+
+(* an operation through a pointer to a released node is an explicit UB of the model *)
+Theorem C19_slist_dead_node_is_ub :
+  forall (D : Type) (s : slist D) (n : nat),
+    sl_is_live s n = false ->
+    sl_node_claim s n = UB UseAfterFree /\ sl_node_next s n = UB UseAfterFree /\
+    sl_node_prev s n = UB UseAfterFree /\ sl_node_val s n = UB UseAfterFree /\
+    sl_node_pop s n = UB UseAfterFree.
+Proof. exact @sl_dead_node_is_ub. Qed.
+Print Assumptions C19_slist_dead_node_is_ub.
+
+(* ---- hash table (ares_htable.c + typed wrappers): coq/Dsa/Htable.v, Htable_proofs.v ---- *)
+From CAres.Dsa Require Import Htable Htable_proofs.
+
+(* MAIN: every operation sequence from ares_htable_create, ANY hash function compatible with
+   the key equality, any seed, any allocator behaviour: the model is never UB, never takes the
+   "impossible" pool-exhausted branch of ares_htable_expand, and its observable results
+   (insert/remove return values and freed entries, get results, counts, iteration and the
+   entries freed by destroy as multisets) are those of the association-list specification;
+   an insert reports failure only if the allocator refused a request during the call, and
+   then the map is unchanged. *)
+Theorem C19_ht_run_refines :
+  forall (K V : Type) (keq : K -> K -> bool) (hash : K -> Z -> Z),
+    (forall a : K, keq a a = true) ->
+    (forall a b : K, keq a b = keq b a) ->
+    (forall a b c : K, keq a b = true -> keq b c = true -> keq a c = true) ->
+    (forall (a b : K) (s : Z), keq a b = true -> hash a s = hash b s) ->
+    forall (vnull : V) (seed : Z) (ops : list (@ht_op K V)),
+    exists tr : list (@ht_obs K V),
+      ht_run_model keq hash vnull seed ops = Ok tr /\
+      Forall2 ht_obs_eq tr (ht_run_spec keq vnull ops (map (@ht_obs_ok K V) tr)) /\
+      ht_justified ops tr.
+Proof. exact @ht_run_refines. Qed.
+Print Assumptions C19_ht_run_refines.
+
+(* when the allocator never refuses, the results are a function of the operations alone *)
+Theorem C19_ht_run_refines_nofail :
+  forall (K V : Type) (keq : K -> K -> bool) (hash : K -> Z -> Z),
+    (forall a : K, keq a a = true) ->
+    (forall a b : K, keq a b = keq b a) ->
+    (forall a b c : K, keq a b = true -> keq b c = true -> keq a c = true) ->
+    (forall (a b : K) (s : Z), keq a b = true -> hash a s = hash b s) ->
+    forall (vnull : V) (seed : Z) (ops : list (@ht_op K V)),
+    Forall (fun op => ~ ht_op_can_fail op) ops ->
+    exists tr : list (@ht_obs K V),
+      ht_run_model keq hash vnull seed ops = Ok tr /\
+      Forall2 ht_obs_eq tr (ht_run_spec keq vnull ops []).
+Proof. exact @ht_run_refines_nofail. Qed.
+Print Assumptions C19_ht_run_refines_nofail.
+
+(* ... hence independent of the hash function and of the seed *)
+Theorem C19_ht_run_hash_independent :
+  forall (K V : Type) (keq : K -> K -> bool) (hash1 hash2 : K -> Z -> Z)
+         (vnull : V) (seed1 seed2 : Z) (ops : list (@ht_op K V)),
+    (forall a, keq a a = true) -> (forall a b, keq a b = keq b a) ->
+    (forall a b c, keq a b = true -> keq b c = true -> keq a c = true) ->
+    (forall a b s, keq a b = true -> hash1 a s = hash1 b s) ->
+    (forall a b s, keq a b = true -> hash2 a s = hash2 b s) ->
+    Forall (fun op => ~ ht_op_can_fail op) ops ->
+    exists tr1 tr2,
+      ht_run_model keq hash1 vnull seed1 ops = Ok tr1 /\
+      ht_run_model keq hash2 vnull seed2 ops = Ok tr2 /\
+      Forall2 ht_obs_eq tr1 tr2.
+Proof. exact @ht_run_hash_independent. Qed.
+Print Assumptions C19_ht_run_hash_independent.
+
+(* the invariant (size a power of two in [2^4, 2^24], every entry in bucket HASH_IDX of its
+   key, no key twice, num_keys = number of entries, num_collisions = sum of (len - 1)) is
+   preserved by every operation sequence, growth included *)
+Theorem C19_ht_invariant_preserved :
+  forall (K V : Type) (keq : K -> K -> bool) (hash : K -> Z -> Z),
+    (forall a : K, keq a a = true) ->
+    (forall a b : K, keq a b = keq b a) ->
+    (forall a b c : K, keq a b = true -> keq b c = true -> keq a c = true) ->
+    (forall (a b : K) (s : Z), keq a b = true -> hash a s = hash b s) ->
+    forall (vnull : V) (ops : list (@ht_op K V)) (h h' : @ht K V),
+    ht_inv keq hash h ->
+    ht_exec keq hash vnull h ops = Ok h' ->
+    (exists n, 4 <= n <= 24 /\ ht_size h' = 2 ^ n) /\
+    length (ht_buckets h') = ht_size h' /\
+    (forall i b e, nth_error (ht_buckets h') i = Some b -> In e (ht_nodes b) ->
+                   ht_idx hash (ht_size h') (ht_seed h') (fst e) = i) /\
+    ht_nodup keq (ht_entries_of (ht_buckets h')) /\
+    ht_num_keys h' = length (ht_entries_of (ht_buckets h')) /\
+    ht_num_collisions h' = list_sum (map (fun b => length (ht_nodes b) - 1) (ht_buckets h')).
+Proof. exact @ht_exec_inv. Qed.
+Print Assumptions C19_ht_invariant_preserved.
+
+(* get after a successful insert returns the latest value (also when the insert grew the
+   table); other keys are unaffected *)
+Theorem C19_ht_latest_value :
+  forall (K V : Type) (keq : K -> K -> bool) (hash : K -> Z -> Z),
+    (forall a b : K, keq a b = keq b a) ->
+    (forall a b c : K, keq a b = true -> keq b c = true -> keq a c = true) ->
+    (forall (a b : K) (s : Z), keq a b = true -> hash a s = hash b s) ->
+    forall (o : list bool) (h : @ht K V) (k : K) (v : V) (h' : @ht K V) (r : ht_ins_result) (k' : K),
+    ht_inv keq hash h ->
+    ht_insert keq hash o h (k, v) = Ok (h', r) ->
+    r <> HtFailed ->
+    ht_get keq hash h' k' = (if keq k' k then Ok (Some (k, v)) else ht_get keq hash h k').
+Proof. exact @ht_get_after_insert. Qed.
+Print Assumptions C19_ht_latest_value.
+
+(* insert of an existing key keeps the count, a new key adds one *)
+Theorem C19_ht_count_after_insert :
+  forall (K V : Type) (keq : K -> K -> bool) (hash : K -> Z -> Z),
+    (forall a b : K, keq a b = keq b a) ->
+    (forall a b c : K, keq a b = true -> keq b c = true -> keq a c = true) ->
+    (forall (a b : K) (s : Z), keq a b = true -> hash a s = hash b s) ->
+    forall (o : list bool) (h : @ht K V) (e : ht_entry) (h' : @ht K V) (r : ht_ins_result),
+    ht_inv keq hash h ->
+    ht_insert keq hash o h e = Ok (h', r) ->
+    r <> HtFailed ->
+    ht_num_keys h' = match hts_get keq (fst e) (ht_entries h) with
+                     | Some _ => ht_num_keys h
+                     | None => S (ht_num_keys h)
+                     end.
+Proof. exact @ht_num_keys_after_insert. Qed.
+Print Assumptions C19_ht_count_after_insert.
+
+(* remove reports (and frees) the binding that was present; afterwards the key is absent,
+   other keys are unaffected, the count drops by one iff something was removed *)
+Theorem C19_ht_remove :
+  forall (K V : Type) (keq : K -> K -> bool) (hash : K -> Z -> Z),
+    (forall a b : K, keq a b = keq b a) ->
+    (forall a b c : K, keq a b = true -> keq b c = true -> keq a c = true) ->
+    (forall (a b : K) (s : Z), keq a b = true -> hash a s = hash b s) ->
+    forall (h : @ht K V) (k : K) (h' : @ht K V) (r : option ht_entry) (k' : K),
+    ht_inv keq hash h ->
+    ht_remove keq hash h k = Ok (h', r) ->
+    ht_inv keq hash h' /\
+    r = hts_get keq k (ht_entries h) /\
+    ht_get keq hash h' k' = (if keq k' k then Ok None else ht_get keq hash h k') /\
+    ht_num_keys h' = match r with Some _ => ht_num_keys h - 1 | None => ht_num_keys h end.
+Proof. exact @ht_get_after_remove. Qed.
+Print Assumptions C19_ht_remove.
+
+(* ares_htable_all_buckets returns exactly the bindings: no key twice, num_keys many, and
+   get of any key is the lookup in that list *)
+Theorem C19_ht_iteration :
+  forall (K V : Type) (keq : K -> K -> bool) (hash : K -> Z -> Z),
+    (forall (a b : K) (s : Z), keq a b = true -> hash a s = hash b s) ->
+    forall (h : @ht K V) (l : list ht_entry),
+    ht_inv keq hash h ->
+    ht_all_buckets true h = Ok (Some l) ->
+    l = ht_entries h /\ ht_nodup keq l /\ length l = ht_num_keys h /\
+    (forall k : K, ht_get keq hash h k = Ok (hts_get keq k l)).
+Proof. exact @ht_all_buckets_bindings. Qed.
+Print Assumptions C19_ht_iteration.
+
+(* the pre-allocated list pool always suffices: under the invariant ares_htable_expand ends
+   normally (never Err HT_POOL_EXHAUSTED, never UB) *)
+Theorem C19_ht_expand_pool_suffices :
+  forall (K V : Type) (keq : K -> K -> bool) (hash : K -> Z -> Z),
+    (forall a b : K, keq a b = keq b a) ->
+    forall (o : list bool) (h : @ht K V),
+    ht_inv keq hash h ->
+    exists (h' : @ht K V) (ok : bool) (o' : list bool), ht_expand hash o h = Ok (h', ok, o').
+Proof. exact @ht_expand_pool_suffices. Qed.
+Print Assumptions C19_ht_expand_pool_suffices.
+
+(* the counting argument itself: a pool of at least sum (len - 1) lists is never exhausted *)
+Theorem C19_ht_rehash_pool_suffices :
+  forall (K V : Type) (hash : K -> Z -> Z) (n : nat) (seed : Z)
+         (bs nb : list (@ht_bucket K V)) (pool coll : nat),
+    ht_acc_ok hash (2 ^ n) seed nb coll ->
+    ht_coll_of bs <= pool ->
+    ht_rehash hash (2 ^ n) seed bs nb pool coll <> Err HT_POOL_EXHAUSTED.
+Proof. exact @ht_rehash_pool_suffices. Qed.
+Print Assumptions C19_ht_rehash_pool_suffices.
+
+(* C14 atomicity: a refused request among those the growth makes leaves the table exactly as
+   it was (any table, no invariant needed) ... *)
+Theorem C19_ht_expand_alloc_fail_atomic :
+  forall (K V : Type) (hash : K -> Z -> Z) (o : list bool) (h : @ht K V),
+    In false (firstn (ht_expand_requests h) o) ->
+    exists o' : list bool, ht_expand hash o h = Ok (h, false, o').
+Proof. exact @ht_expand_alloc_fail_atomic. Qed.
+Print Assumptions C19_ht_expand_alloc_fail_atomic.
+
+(* ... and the insert that needed the growth returns ARES_FALSE without inserting *)
+Theorem C19_ht_insert_growth_fail_atomic :
+  forall (K V : Type) (keq : K -> K -> bool) (hash : K -> Z -> Z),
+    (forall a b : K, keq a b = keq b a) ->
+    (forall a b c : K, keq a b = true -> keq b c = true -> keq a c = true) ->
+    (forall (a b : K) (s : Z), keq a b = true -> hash a s = hash b s) ->
+    forall (o : list bool) (h : @ht K V) (e : K * V),
+    ht_inv keq hash h ->
+    hts_get keq (fst e) (ht_entries h) = None ->
+    ht_should_expand h = true ->
+    In false (firstn (ht_expand_requests h) o) ->
+    ht_insert keq hash o h e = Ok (h, HtFailed).
+Proof. exact @ht_insert_growth_fail_atomic. Qed.
+Print Assumptions C19_ht_insert_growth_fail_atomic.
+
+(* C14 atomicity: any failed insert leaves the map, every lookup and the count unchanged,
+   keeps the invariant, and happens only when the allocator refused a request *)
+Theorem C19_ht_insert_alloc_fail_atomic :
+  forall (K V : Type) (keq : K -> K -> bool) (hash : K -> Z -> Z),
+    (forall a b : K, keq a b = keq b a) ->
+    (forall a b c : K, keq a b = true -> keq b c = true -> keq a c = true) ->
+    (forall (a b : K) (s : Z), keq a b = true -> hash a s = hash b s) ->
+    forall (o : list bool) (h : @ht K V) (e : ht_entry) (h' : @ht K V),
+    ht_inv keq hash h ->
+    ht_insert keq hash o h e = Ok (h', HtFailed) ->
+    ht_inv keq hash h' /\
+    Permutation (ht_entries h') (ht_entries h) /\
+    In false o /\
+    (forall k : K, ht_get keq hash h' k = ht_get keq hash h k) /\
+    ht_num_keys h' = ht_num_keys h.
+Proof. exact @ht_insert_alloc_fail_atomic. Qed.
+Print Assumptions C19_ht_insert_alloc_fail_atomic.
+
+(* typed wrappers: numeric keys compared with == (szvp, asvp, vpvp, vpstr): ANY hash function *)
+Theorem C19_ht_szvp_run_refines :
+  forall (hash : Z -> Z -> Z) (seed : Z) (ops : list (@ht_op Z Z)),
+  exists tr, ht_run_model ht_szvp_keq hash 0%Z seed ops = Ok tr /\
+    Forall2 ht_obs_eq tr (ht_run_spec ht_szvp_keq 0%Z ops (map (@ht_obs_ok Z Z) tr)) /\
+    ht_justified ops tr.
+Proof. exact ht_szvp_run_refines. Qed.
+Print Assumptions C19_ht_szvp_run_refines.
+
+(* case-insensitive string keys (strvp, dict): any hash function that ignores case ... *)
+Theorem C19_ht_strvp_run_refines :
+  forall (hash : list Z -> Z -> Z) (seed : Z) (ops : list (@ht_op (list Z) Z)),
+  (forall a b s, ht_strcaseeq a b = true -> hash a s = hash b s) ->
+  exists tr, ht_run_model ht_strcaseeq hash 0%Z seed ops = Ok tr /\
+    Forall2 ht_obs_eq tr (ht_run_spec ht_strcaseeq 0%Z ops (map (@ht_obs_ok (list Z) Z) tr)) /\
+    ht_justified ops tr.
+Proof. exact ht_strvp_run_refines. Qed.
+Print Assumptions C19_ht_strvp_run_refines.
+
+(* ... in particular the library's ares_htable_hash_FNV1a_casecmp *)
+Theorem C19_ht_strvp_run_refines_fnv :
+  forall (seed : Z) (ops : list (@ht_op (list Z) Z)),
+  exists tr, ht_run_model ht_strcaseeq ht_fnv1a_casecmp 0%Z seed ops = Ok tr /\
+    Forall2 ht_obs_eq tr (ht_run_spec ht_strcaseeq 0%Z ops (map (@ht_obs_ok (list Z) Z) tr)) /\
+    ht_justified ops tr.
+Proof. exact ht_strvp_run_refines_fnv. Qed.
+Print Assumptions C19_ht_strvp_run_refines_fnv.
+
+(* the main statement with literal equality: return values, freed entries, get results,
+   counts and SORTED iteration of the model run equal those of the specification run, for
+   any total order [leb] on the entries used for sorting *)
+Theorem C19_ht_run_refines_sorted :
+  forall (K V : Type) (keq : K -> K -> bool) (hash : K -> Z -> Z)
+         (leb : @ht_entry K V -> @ht_entry K V -> bool) (vnull : V) (seed : Z) (ops : list (@ht_op K V)),
+    (forall a, keq a a = true) -> (forall a b, keq a b = keq b a) ->
+    (forall a b c, keq a b = true -> keq b c = true -> keq a c = true) ->
+    (forall a b s, keq a b = true -> hash a s = hash b s) ->
+    (forall a b, leb a b = true \/ leb b a = true) ->
+    (forall a b c, leb a b = true -> leb b c = true -> leb a c = true) ->
+    (forall a b, leb a b = true -> leb b a = true -> a = b) ->
+    Forall (fun op => ~ ht_op_can_fail op) ops ->
+    exists tr, ht_run_model keq hash vnull seed ops = Ok tr /\
+      map (ht_obs_canon (ht_sort leb)) tr =
+      map (ht_obs_canon (ht_sort leb)) (ht_run_spec keq vnull ops []).
+Proof. exact @ht_run_refines_sorted. Qed.
+Print Assumptions C19_ht_run_refines_sorted.
+
+(* instance: numeric keys and values sorted by key then value, ANY hash function *)
+Theorem C19_ht_szvp_run_refines_sorted :
+  forall (hash : Z -> Z -> Z) (seed : Z) (ops : list (@ht_op Z Z)),
+    Forall (fun op => ~ ht_op_can_fail op) ops ->
+    exists tr, ht_run_model ht_szvp_keq hash 0%Z seed ops = Ok tr /\
+      map (ht_obs_canon (ht_sort ht_zz_leb)) tr =
+      map (ht_obs_canon (ht_sort ht_zz_leb)) (ht_run_spec ht_szvp_keq 0%Z ops []).
+Proof. exact ht_szvp_run_refines_sorted. Qed.
+Print Assumptions C19_ht_szvp_run_refines_sorted.
+
+(* ---- the byte buffer (src/lib/str/ares_buf.c): coq/Dsa/Buf.v, Buf_proofs.v, Buf_split_props.v ---- *)
+From CAres.Dsa Require Import Buf Buf_proofs Buf_split_props.
+Local Open Scope Z_scope.
+
+(* MAIN: for every operation sequence on a freshly created buffer (operations = the calls of
+   the C API, with their allocation oracles), the model run - stopped at the first call outside
+   the caller contract - never is UB, never runs out of fuel, and every observation (status,
+   outputs, ares_buf_len, position, tag length, all remaining bytes) is one the byte-queue
+   specification allows. *)
+Theorem C19_buf_bytes : forall junk ops,
+  (forall i, 0 <= junk i < 256) -> Forall buf_op_ok ops ->
+  exists tr, buf_run_checked junk buf_empty ops = Ok tr /\ bufs_accepts [bufs_create] ops tr = true.
+Proof. exact buf_run_refines. Qed.
+Print Assumptions C19_buf_bytes.
+
+(* one step: invariant preserved, never UB, result among the alternatives of the specification *)
+Theorem C19_buf_step_refines : forall junk b op, (forall i, 0 <= junk i < 256) ->
+  buf_inv b -> buf_bytes_ok (cb_mem b) -> buf_op_ok op -> bufs_contract (buf_abs b) op = true ->
+  exists o b', buf_step junk b op = Ok (o, b') /\ buf_inv b' /\ buf_bytes_ok (cb_mem b') /\
+               In (o, buf_abs b') (bufs_alts (buf_abs b) op).
+Proof. exact buf_step_refines. Qed.
+Print Assumptions C19_buf_step_refines.
+
+Theorem C19_buf_observe_refines : forall b, buf_inv b -> buf_observe b = Ok (bufs_view (buf_abs b)).
+Proof. exact buf_observe_refines. Qed.
+Print Assumptions C19_buf_observe_refines.
+
+(* append: exactly the bytes at the back, or ENOMEM (only when the allocator refuses) with the
+   abstract value unchanged *)
+Theorem C19_buf_append_refines : forall junk ok b bytes,
+  buf_inv b -> buf_zlen bytes < BUF_ALLOC_LIMIT ->
+  exists st b', buf_append junk ok b bytes = Ok (st, b') /\ buf_inv b' /\
+    In (st, buf_abs b') (bufs_append_alts (buf_abs b) bytes) /\
+    ((forall i, 0 <= junk i < 256) -> buf_bytes_ok (cb_mem b) -> buf_bytes_ok bytes -> buf_bytes_ok (cb_mem b')) /\
+    (st = ARES_ENOMEM -> ok = false \/ BUF_ALLOC_LIMIT <= 2 * (cb_dlen b + buf_zlen bytes + 1)).
+Proof. exact buf_append_refines. Qed.
+Print Assumptions C19_buf_append_refines.
+
+Theorem C19_buf_append_total : forall junk b bytes,
+  buf_inv b -> buf_not_const b -> cb_dlen b + buf_zlen bytes + 1 < 2 ^ 60 ->
+  exists b', buf_append junk true b bytes = Ok (ARES_SUCCESS, b') /\
+             buf_remaining b' = buf_remaining b ++ bytes.
+Proof. exact buf_append_total. Qed.
+Print Assumptions C19_buf_append_total.
+
+(* C14, container level *)
+Theorem C19_buf_append_alloc_fail_atomic : forall junk ok b bytes st b',
+  buf_inv b -> buf_zlen bytes < BUF_ALLOC_LIMIT ->
+  buf_append junk ok b bytes = Ok (st, b') -> st = ARES_ENOMEM ->
+  buf_inv b' /\ buf_remaining b' = buf_remaining b /\ bufs_tagged (buf_abs b') = bufs_tagged (buf_abs b).
+Proof. exact buf_append_alloc_fail_atomic. Qed.
+Print Assumptions C19_buf_append_alloc_fail_atomic.
+
+Theorem C19_buf_ensure_space_alloc_fail_atomic : forall junk ok b n st b',
+  buf_inv b -> 0 <= n < BUF_ALLOC_LIMIT ->
+  buf_ensure_space junk ok b n = Ok (st, b') -> st = ARES_ENOMEM ->
+  buf_inv b' /\ buf_remaining b' = buf_remaining b /\ bufs_tagged (buf_abs b') = bufs_tagged (buf_abs b).
+Proof. exact buf_ensure_space_alloc_fail_atomic. Qed.
+Print Assumptions C19_buf_ensure_space_alloc_fail_atomic.
+
+Theorem C19_buf_append_be16_alloc_fail_atomic : forall junk ok b v st b',
+  buf_inv b -> buf_append_be16 junk ok b v = Ok (st, b') -> st = ARES_ENOMEM ->
+  buf_inv b' /\ buf_remaining b' = buf_remaining b /\ bufs_tagged (buf_abs b') = bufs_tagged (buf_abs b).
+Proof. exact buf_append_be16_alloc_fail_atomic. Qed.
+Print Assumptions C19_buf_append_be16_alloc_fail_atomic.
+
+(* the code before fixes/C19-buf-append-be-atomic.patch was NOT atomic (refutation witness) *)
+Theorem C19_buf_append_be16_unfixed_refuted :
+  exists b b', buf_inv b /\
+    buf_append_be16_unfixed (fun _ => 0) true false b 4660 = Ok (ARES_ENOMEM, b') /\
+    buf_remaining b' = buf_remaining b ++ [18] /\ buf_remaining b' <> buf_remaining b.
+Proof. exact buf_append_be16_unfixed_not_atomic. Qed.
+Print Assumptions C19_buf_append_be16_unfixed_refuted.
+
+(* fetches *)
+Theorem C19_buf_fetch_bytes_refines : forall b n, buf_inv b -> 0 <= n ->
+  exists st b' out, buf_fetch_bytes b n = Ok (st, b', out) /\ buf_inv b' /\
+                    (st, buf_abs b', out) = bufs_fetch_bytes (buf_abs b) n.
+Proof. exact buf_fetch_bytes_refines. Qed.
+Print Assumptions C19_buf_fetch_bytes_refines.
+
+Theorem C19_buf_fetch_be16_refines : forall b, buf_inv b -> buf_bytes_ok (buf_remaining b) ->
+  exists st b' v, buf_fetch_be16 b = Ok (st, b', v) /\ buf_inv b' /\
+                  (st, buf_abs b', v) = bufs_fetch_be 2 (buf_abs b).
+Proof. exact buf_fetch_be16_refines. Qed.
+Print Assumptions C19_buf_fetch_be16_refines.
+
+Theorem C19_buf_fetch_be32_refines : forall b, buf_inv b -> buf_bytes_ok (buf_remaining b) ->
+  exists st b' v, buf_fetch_be32 b = Ok (st, b', v) /\ buf_inv b' /\
+                  (st, buf_abs b', v) = bufs_fetch_be 4 (buf_abs b).
+Proof. exact buf_fetch_be32_refines. Qed.
+Print Assumptions C19_buf_fetch_be32_refines.
+
+Theorem C19_buf_be_roundtrip : forall k v, 0 <= v ->
+  bufs_be_value 0 (bufs_be_bytes k v) = v mod 256 ^ Z.of_nat k.
+Proof. exact bufs_be_roundtrip. Qed.
+Print Assumptions C19_buf_be_roundtrip.
+
+Theorem C19_buf_fetch_bytes_boundary : forall s, 0 < bufs_len s ->
+  bufs_fetch_bytes s (bufs_len s) = (ARES_SUCCESS, mkBufSpec (bs_pre s ++ bs_post s) [] (bs_tag s) (bs_const s), bs_post s) /\
+  bufs_fetch_bytes s (bufs_len s + 1) = (ARES_EBADRESP, s, []).
+Proof. exact bufs_fetch_bytes_boundary. Qed.
+Print Assumptions C19_buf_fetch_bytes_boundary.
+
+Theorem C19_buf_consume_refines : forall b n, buf_inv b -> 0 <= n ->
+  exists st b', buf_consume b n = Ok (st, b') /\ buf_inv b' /\
+                (st, buf_abs b') = bufs_consume (buf_abs b) n.
+Proof. exact buf_consume_refines. Qed.
+Print Assumptions C19_buf_consume_refines.
+
+(* tag / rollback / reclaim *)
+Theorem C19_buf_tag_rollback_refines : forall b, buf_inv b ->
+  exists st b', buf_tag_rollback b = Ok (st, b') /\ buf_inv b' /\
+                (st, buf_abs b') = bufs_tag_rollback (buf_abs b).
+Proof. exact buf_tag_rollback_refines. Qed.
+Print Assumptions C19_buf_tag_rollback_refines.
+
+Theorem C19_buf_tag_advance_rollback : forall s n1 n2,
+  0 <= n1 -> 0 <= n2 -> n1 + n2 <= bufs_len s ->
+  snd (bufs_tag_rollback (bufs_advance (bufs_advance (bufs_tag s) n1) n2)) =
+  mkBufSpec (bs_pre s) (bs_post s) None (bs_const s).
+Proof. exact bufs_tag_advance_rollback. Qed.
+Print Assumptions C19_buf_tag_advance_rollback.
+
+Theorem C19_buf_tag_length_refines : forall b, buf_inv b -> buf_tag_length b = Ok (bufs_tag_length (buf_abs b)).
+Proof. exact buf_tag_length_refines. Qed.
+Print Assumptions C19_buf_tag_length_refines.
+
+Theorem C19_buf_tag_fetch_bytes_refines : forall b cap, buf_inv b -> 0 <= cap ->
+  exists r, buf_tag_fetch_bytes b cap = Ok r /\ In r (bufs_tag_fetch_bytes_alts (buf_abs b) cap).
+Proof. exact buf_tag_fetch_bytes_refines. Qed.
+Print Assumptions C19_buf_tag_fetch_bytes_refines.
+
+Theorem C19_buf_reclaim_refines : forall b, buf_inv b ->
+  exists b', buf_reclaim b = Ok b' /\ buf_inv b' /\ buf_abs b' = bufs_trim (buf_abs b) /\
+             cb_alloc b' = cb_alloc b /\ cb_dlen b' <= cb_dlen b /\
+             cb_hasdata b' = cb_hasdata b /\ cb_hasabuf b' = cb_hasabuf b /\
+             (buf_bytes_ok (cb_mem b) -> buf_bytes_ok (cb_mem b')).
+Proof. exact buf_reclaim_refines. Qed.
+Print Assumptions C19_buf_reclaim_refines.
+
+Theorem C19_buf_rollback_after_reclaim : forall s t, bs_tag s = Some t -> 0 <= t ->
+  bs_post (snd (bufs_tag_rollback (bufs_trim s))) = bs_post (snd (bufs_tag_rollback s)) /\
+  bufs_tagged (bufs_trim s) = bufs_tagged s /\ bs_post (bufs_trim s) = bs_post s.
+Proof. exact bufs_rollback_after_trim. Qed.
+Print Assumptions C19_buf_rollback_after_reclaim.
+
+(* positions and lengths *)
+Theorem C19_buf_set_position_refines : forall b idx, buf_inv b -> 0 <= idx ->
+  bufs_set_position_contract (buf_abs b) idx = true ->
+  exists st b', buf_set_position b idx = Ok (st, b') /\ buf_inv b' /\
+                (st, buf_abs b') = bufs_set_position (buf_abs b) idx.
+Proof. exact buf_set_position_refines. Qed.
+Print Assumptions C19_buf_set_position_refines.
+
+Theorem C19_buf_set_position_below_tag : forall b idx, buf_inv b -> cb_hasdata b = true ->
+  cb_tag b <> BUF_SIZE_MAX -> 0 <= idx < cb_tag b ->
+  exists b', buf_set_position b idx = Ok (ARES_SUCCESS, b') /\
+    cb_off b' = idx /\ cb_tag b' = cb_tag b /\ ~ buf_inv b' /\
+    buf_tag_length b' = Ok (2 ^ 64 - (cb_tag b - idx)) /\
+    (forall cap, buf_tag_fetch_bytes b' cap =
+                 if cap <? 2 ^ 64 - (cb_tag b - idx) then Ok (ARES_EFORMERR, []) else UB OutOfBounds).
+Proof. exact buf_set_position_below_tag. Qed.
+Print Assumptions C19_buf_set_position_below_tag.
+
+Theorem C19_buf_set_length_refines : forall b len fill, buf_inv b -> 0 <= len ->
+  exists st b', buf_set_length_fill b len fill = Ok (st, b') /\ buf_inv b' /\
+    In (st, buf_abs b') (bufs_set_length_alts (buf_abs b) len fill) /\
+    (0 <= fill < 256 -> buf_bytes_ok (cb_mem b) -> buf_bytes_ok (cb_mem b')) /\
+    (st = ARES_SUCCESS <-> (bs_const (buf_abs b) = false /\ len < cb_alloc b - cb_off b)).
+Proof. exact buf_set_length_fill_refines. Qed.
+Print Assumptions C19_buf_set_length_refines.
+
+(* finish *)
+Theorem C19_buf_finish_bin_exact : forall junk ok b, buf_inv b -> bs_const (buf_abs b) = false ->
+  exists r b', buf_finish_bin junk ok b = Ok (r, b') /\
+    match r with
+    | Some bytes => bytes = bufs_tagged (buf_abs b) ++ buf_remaining b
+    | None => buf_remaining b = [] /\ ok = false \/ buf_remaining b = []
+    end.
+Proof. exact buf_finish_bin_exact. Qed.
+Print Assumptions C19_buf_finish_bin_exact.
+
+(* split *)
+Theorem C19_buf_split_refines : forall ok_arr b delims flags max_sections,
+  buf_inv b -> 0 <= flags -> 0 <= max_sections ->
+  exists st b' pieces, buf_split ok_arr (fun _ => true) b delims flags max_sections = Ok (st, b', pieces) /\
+    buf_inv b' /\ cb_mem b' = cb_mem b /\
+    In (mkBufObs st [buf_zlen pieces] pieces, buf_abs b') (bufs_split_alts ok_arr (buf_abs b) delims flags max_sections).
+Proof. exact buf_split_refines. Qed.
+Print Assumptions C19_buf_split_refines.
+
+Theorem C19_buf_split_fields : forall delims flags,
+  buf_flag flags ARES_BUF_SPLIT_KEEP_DELIMS = false -> forall l,
+  fst (bufs_split delims flags 0 l) =
+  fold_left (fun a f => bufs_split_emit flags a (rev f)) (buf_fields (buf_in_charset delims) l) [].
+Proof. exact bufs_split_fields. Qed.
+Print Assumptions C19_buf_split_fields.
+
+Theorem C19_buf_split_noflags : forall delims l,
+  fst (bufs_split delims ARES_BUF_SPLIT_NONE 0 l) = filter buf_nonempty (buf_fields (buf_in_charset delims) l).
+Proof. exact bufs_split_noflags. Qed.
+Print Assumptions C19_buf_split_noflags.
+
+Theorem C19_buf_split_partition : forall delims l,
+  exists ds, Forall (fun d => buf_in_charset delims d = true) ds /\
+             length (fst (bufs_split delims ARES_BUF_SPLIT_ALLOW_BLANK 0 l)) = S (length ds) /\
+             buf_interleave (fst (bufs_split delims ARES_BUF_SPLIT_ALLOW_BLANK 0 l)) ds = l /\
+             Forall (Forall (fun c => buf_in_charset delims c = false)) (fst (bufs_split delims ARES_BUF_SPLIT_ALLOW_BLANK 0 l)).
+Proof. exact bufs_split_partition. Qed.
+Print Assumptions C19_buf_split_partition.
+
+Theorem C19_buf_split_trim : forall delims l,
+  fst (bufs_split delims ARES_BUF_SPLIT_TRIM 0 l) =
+  filter buf_nonempty (map buf_trim (buf_fields (buf_in_charset delims) l)).
+Proof. exact bufs_split_trim. Qed.
+Print Assumptions C19_buf_split_trim.
+
+Theorem C19_buf_split_no_duplicates : forall delims flags max_sections l,
+  buf_flag flags ARES_BUF_SPLIT_NO_DUPLICATES = true ->
+  buf_nodup_by (buf_piece_eqb flags) (fst (bufs_split delims flags max_sections l)).
+Proof. exact bufs_split_no_duplicates. Qed.
+Print Assumptions C19_buf_split_no_duplicates.
+Local Close Scope Z_scope.
+
+(* ---- the hand model of the byte-level reads agrees with the text generated from the C
+   source (static helpers inlined, data region as index -> byte): same status, cursor, value ---- *)
+From CAres.Dsa Require Import Buf_gen_agree.
+From CAres.Gen Require Import LeafFns.
+
+Theorem C19_buf_fetch_be16_agrees_generated : forall b old,
+  buf_inv b -> buf_bytes_ok (buf_remaining b) ->
+  exists st b' v v',
+    buf_fetch_be16 b = Ok (st, b', v) /\
+    c_ares_buf_fetch_be16 (b2z (cb_hasdata b)) (cb_dlen b) (cb_off b) (buf_memf b) old
+      = Ok (st, cb_off b', v') /\
+    (st = ARES_SUCCESS -> v' = v) /\ (st <> ARES_SUCCESS -> v' = old /\ b' = b).
+Proof. exact buf_fetch_be16_agrees_generated. Qed.
+Print Assumptions C19_buf_fetch_be16_agrees_generated.
+
+Theorem C19_buf_peek_byte_agrees_generated : forall b old,
+  buf_inv b -> buf_bytes_ok (buf_remaining b) ->
+  exists st v v',
+    buf_peek_byte b = Ok (st, v) /\
+    c_ares_buf_peek_byte (b2z (cb_hasdata b)) (cb_dlen b) (cb_off b) (buf_memf b) old = Ok (st, v') /\
+    (st = ARES_SUCCESS -> v' = v) /\ (st <> ARES_SUCCESS -> v' = old).
+Proof. exact buf_peek_byte_agrees_generated. Qed.
+Print Assumptions C19_buf_peek_byte_agrees_generated.
+
+Theorem C19_buf_fetch_bytes_agrees_generated : forall b len,
+  buf_inv b -> (0 <= len < 2 ^ 62)%Z ->
+  exists st b' bytes,
+    buf_fetch_bytes b len = Ok (st, b', bytes) /\
+    c_ares_buf_fetch_bytes len (b2z (cb_hasdata b)) (cb_dlen b) (cb_off b) (buf_memf b)
+      = Ok (st, cb_off b').
+Proof. exact buf_fetch_bytes_agrees_generated. Qed.
+Print Assumptions C19_buf_fetch_bytes_agrees_generated.
